@@ -479,8 +479,33 @@ impl WorkerState for W {
         let empty: Vec<u8> = Vec::new();
         let fns = self.script_fns(case.first().unwrap_or(&empty));
         let excluded_pins = self.excluded_pins.replace(0);
-        let src: String = fns.iter().map(|f| f.text.clone()).collect();
-        let mut pkg = match host::compile(&self.rt, &src) {
+        let mut src: String = fns.iter().map(|f| f.text.clone()).collect();
+        // one case in three: a child module `m1` holding renamed copies of up to two of the functions, and
+        // test blocks in both modules.  A function is retrievable by its module path only (the root does not
+        // declare the name), a test block under no other type than a test's own.
+        let ctl0 = case.first().unwrap_or(&empty);
+        let with_sub = ctl0.len() > 4 && ctl0[ctl0.len() / 2] % 3 == 0;
+        let mut sub_fns: Vec<ScriptFn> = Vec::new();
+        let mut sub_src = String::new();
+        if with_sub {
+            for f in fns.iter().filter(|f| !f.pinned && !f.name.ends_with("_pin") && f.name != "shadowed").take(2) {
+                let new_name = format!("sub_{}", f.name);
+                let text = f.text.replace(&format!("{}(", f.name), &format!("{new_name}("));
+                sub_src.push_str(&text);
+                sub_fns.push(ScriptFn { name: new_name, filtermap: f.filtermap, params: f.params.clone(), ret: f.ret.clone(), text, pinned: false });
+            }
+            sub_src.push_str("test t_b {\n    reject\n}\n");
+            src.push_str("test t_a {\n    accept\n}\n");
+        }
+        let compiled = if with_sub {
+            crate::props::c06::build_tree(&[("pkg".to_string(), src.clone()), ("m1".to_string(), sub_src.clone())]).compile(&self.rt).map_err(|e| host::render_report(&e))
+        } else {
+            host::compile(&self.rt, &src)
+        };
+        if with_sub {
+            src = format!("{src}=== m1.roto ===\n{sub_src}");
+        }
+        let mut pkg = match compiled {
             Ok(p) => p,
             Err(e) => return Outcome::discard(format!("generated signatures rejected by the compiler:\n{e}\n--- source ---\n{src}")),
         };
@@ -526,6 +551,41 @@ impl WorkerState for W {
                     );
                     fail.render = Some(src);
                     return fail;
+                }
+            }
+        }
+        // functions of the child module: by module path under their own type only, never by their bare name
+        let unit_verdict = TD::Verdict(Box::new(TD::Leaf("()")), Box::new(TD::Leaf("()")));
+        for f in &sub_fns {
+            o.classes.push("function-in-a-child-module".into());
+            for e in &self.cat {
+                let should = e.params == f.params && e.ret == f.ret;
+                for (name, want) in [(format!("m1.{}", f.name), should), (f.name.clone(), false), (format!("pkg.{}", f.name), false)] {
+                    let got = (e.probe)(&mut pkg, &name);
+                    o.evals += 1;
+                    if got.is_ok() != want {
+                        let kind = if want { "refused-true-signature" } else { "accepted-wrong-signature" };
+                        let mut fail = Outcome::fail(format!("{kind}:child-module"), format!("get_function::<{}>(\"{name}\") {} but module m1 declares\n{}\n--- source ---\n{src}", e.rust, if got.is_ok() { "succeeded" } else { "failed" }, f.text));
+                        fail.render = Some(src);
+                        return fail;
+                    }
+                }
+            }
+        }
+        if with_sub {
+            o.classes.push("test-blocks-requested-as-functions".into());
+            for e in &self.cat {
+                if e.params.is_empty() && e.ret == unit_verdict {
+                    // a test's own type: whether a test is retrievable at all is not something the property fixes
+                    continue;
+                }
+                for name in ["test#t_a", "pkg.test#t_a", "m1.test#t_b", "pkg.m1.test#t_b", "t_a", "m1.t_b", "test#t_b"] {
+                    o.evals += 1;
+                    if (e.probe)(&mut pkg, name).is_ok() {
+                        let mut fail = Outcome::fail("accepted-wrong-signature:test-block", format!("get_function::<{}>(\"{name}\") succeeded: a test block was handed out as a function of that type\n--- source ---\n{src}", e.rust));
+                        fail.render = Some(src);
+                        return fail;
+                    }
                 }
             }
         }
